@@ -64,17 +64,18 @@ def extract(q, R, spec):
     cx.ok = False
     cx.key_eq, cx.key_parts = U.key_equivalences(q)
     cx.leaves, cx.maps, cx.info_of = U.model_tables(q)
-    wc = q.fn("write_class", within=EF)
-    pc = q.fn("parse_class", within=EF)
-    ri = q.fn("read_into", within=EF + "read_into")
-    if not (R.anchor("R12.1", "fn enigma_file::write_class", wc) and R.anchor("R12.1", "fn parse_class", pc)
-            and R.anchor("R12.1", "fn enigma_file::read_into", ri)):
+    W = U.Writer(q)
+    cx.W = W
+    roles = resolve_roles(q, W)
+    cx.roles = roles
+    wc, pc, ri = roles.get("write_class"), roles.get("parse_class"), roles.get("read_into")
+    if not (R.anchor("R12.1", "fn enigma_file::read_into", ri)
+            and R.anchor("R12.1", "class writer (the writing function called by the tree walk of write_all)", wc)
+            and R.anchor("R12.1", "class parser (the function read_into's top level hands CLASS lines to)", pc)):
         return cx
     cx.wc, cx.pc, cx.ri = wc, pc, ri
     sep = spec["separator"]
-    # ---- writer rows of write_class
-    W = U.Writer(q)
-    cx.W = W
+    # ---- writer rows of the class writer
     wfn = U.Fn(q, wc)
     cx.wfn = wfn
     try:
@@ -126,11 +127,82 @@ def extract(q, R, spec):
     return cx
 
 
+def resolve_roles(q, W):
+    """The private functions of the Enigma module by role, starting from the public entry points (which are anchored by name):
+    write_all -> placement function (its result's `file_map` is walked), tree walk (the writing function called in that loop),
+    class writer (the writing function the tree walk calls); read_into -> class parser (gets the line of a top-level row)."""
+    out = {}
+    out["read_into"] = q.fn("read_into", within=EF + "read_into")
+    for name in ("write_all", "write_all_for_each", "write_one"):
+        out[name] = q.fn(name, within=EF + name)
+    wa = out.get("write_all")
+    if wa:
+        fn = U.Fn(q, wa)
+        for n in H.walk(fn.root):
+            if n.get("k") == "for":
+                ch = fn.trace(n["iter"])
+                calls = [h for h in ch.hops if h[0] == "call" and len(h) > 3 and h[3] in q.by_key]
+                if calls and [h for h in ch.hops if h[0] == "f"][-1:] and U.is_map_ty(n.get("iter_ty")):
+                    out["placement"] = q.by_key[calls[0][3]]
+                for x in H.walk(n["body"]):
+                    if x.get("k") == "call":
+                        key = (x.get("callee") or {}).get("key")
+                        if key in q.by_key and W.fn_emits(key):
+                            out["tree_walk"] = q.by_key[key]
+    tw = out.get("tree_walk")
+    if tw:
+        keys = set()
+        for x in H.walk(tw["body"]):
+            if x.get("k") == "call":
+                key = (x.get("callee") or {}).get("key")
+                if key in q.by_key and key != tw["key"] and W.fn_emits(key):
+                    keys.add(key)
+        if len(keys) == 1:
+            out["write_class"] = q.by_key[list(keys)[0]]
+    ri = out.get("read_into")
+    if ri:
+        RD = U.Reader(q, line_types=("EnigmaLine",))
+        rfn = RD.mkfn(ri)
+        levels, _ = RD.levels(rfn)
+        keys = set()
+        for lv in levels:
+            if lv.depth == ("abs", 0):
+                for tag, body in lv.branches:
+                    for kind, n, f in RD.row_ops(rfn, body, lv.line_id):
+                        if kind == "helper":
+                            keys.add(f.body["key"])
+        if len(keys) == 1:
+            out["parse_class"] = q.by_key[list(keys)[0]]
+    return out
+
+
+def dir_read_worker(q):
+    """enigma_dir::read, or the function of the crate it calls, whichever builds the WalkDir."""
+    b = q.fn("read", within="quill::enigma_dir::read")
+    seen = 0
+    while b is not None and seen < 3:
+        if any(x.get("k") == "call" and "WalkDir" in ((x.get("callee") or {}).get("path") or "") for x in H.walk(b["body"])):
+            return b
+        ks = set((x.get("callee") or {}).get("key") for x in H.walk(b["body"]) if x.get("k") == "call") & set(q.by_key)
+        b = q.by_key[list(ks)[0]] if len(ks) == 1 else None
+        seen += 1
+    return None
+
+
+def lit_of(chain_root):
+    """Literal value of a chain root that is a literal or an (evaluated) constant."""
+    if chain_root[0] == "lit":
+        return chain_root[1]
+    if chain_root[0] == "const":
+        return chain_root[2]
+    return None
+
+
 def indent_of_hole(hole):
     """("repeat", literal, count chain) when a leading hole is `"<lit>".repeat(n)`."""
     ch = hole[2].trace(hole[1])
-    if ch.root[0] == "lit" and len(ch.hops) == 1 and ch.hops[0][0] == "call" and ch.hops[0][1] == "repeat":
-        return ("repeat", ch.root[1], ch.hops[0][2][0] if ch.hops[0][2] else None)
+    if isinstance(lit_of(ch.root), str) and len(ch.hops) == 1 and ch.hops[0][0] == "call" and ch.hops[0][1] == "repeat":
+        return ("repeat", lit_of(ch.root), ch.hops[0][2][0] if ch.hops[0][2] else None)
     return None
 
 
@@ -257,11 +329,10 @@ def reader_row(q, cx, fn, lv, tag, body, rel_depth, line_id=None):
             arm = {"arity": arity, "guarded": guarded, "index": ai, "roles": {}, "guard": a.get("guard")}
             sels = [{id(m): ai}]
             # in the CLASS row the names also depend on `if let Some(..) = parent`: evaluate the parent-less side here
-            extra = [x for x in RD.walk_row(fn, body) if x.get("k") == "if" and H.peel(x["cond"], refs=False).get("k") == "letexpr"
-                     and x.get("ty") not in ("()", None) and x is not m]
+            extra = U.option_value_branches(fn, [x for x in RD.walk_row(fn, body) if x is not m])
             sel = dict(sels[0])
-            for x in extra:
-                sel[id(x)] = False
+            for x, sel_some, sel_none, scrut in extra:
+                sel.update(sel_none)
             f2 = fn.with_sel(sel)
             for st in lits_all:
                 for f in st["fields"]:
@@ -307,7 +378,7 @@ def comment_helper(q, cx, fn, call, callee):
 
 
 # ------------------------------------------------------------------------------------------------ R12.1
-ALLOWED_WRITER_CALLS = {"get_inner_class_name", "unwrap_or", "filter", "split"}
+ALLOWED_WRITER_CALLS = {"filter", "split"}
 
 
 def wrole(cx, col):
@@ -375,6 +446,8 @@ def r12_1(q, R, cx, spec):
                 problems.append("writer columns %s, layout table %s (optional %s)" % (roles, want_cols, sorted(optional)))
             for c in v["cols"]:
                 calls = set(h[1] for h in c["rest"] if h[0] == "call")
+                if key == "CLASS":
+                    calls = set()        # which part of a class name is printed is decided by R12.3 (strip:*), not here
                 if not calls <= ALLOWED_WRITER_CALLS:
                     problems.append("column %s printed through %s" % (wrole(cx, c), sorted(calls)))
                 if c["trait"] != "Display":
@@ -485,8 +558,8 @@ def r12_2(q, R, cx, spec):
             if o["sorted"] is not None:
                 U.sort_key_total(q, R, "R12.2", cx, fn, o, ikey.replace("loop:", "sortkey:"))
     # ---- figure_out_files
-    fo = q.fn("figure_out_files", within=EF)
-    if R.anchor("R12.2", "fn figure_out_files", fo):
+    fo = cx.roles.get("placement")
+    if R.anchor("R12.2", "placement function (its file_map is walked by write_all)", fo):
         ffn = U.Fn(q, fo)
         cx.ffn = ffn
         lit, fm = _struct_field_local(ffn, "Placement", "file_map")
@@ -531,27 +604,30 @@ def r12_2(q, R, cx, spec):
         if not R.anchor("R12.2", "fn %s" % name, b):
             continue
         fn = U.Fn(q, b)
-        loops = [n for n in H.walk(fn.root) if n.get("k") == "for" and cx.W.has_sink(n["body"]) or
-                 (n.get("k") == "for" and any(x.get("k") == "call" and H.callee_name(x) == "write_one_tree_starting_at" for x in H.walk(n["body"])))]
+        tw_key = (cx.roles.get("tree_walk") or {}).get("key")
+        pl_key = (cx.roles.get("placement") or {}).get("key")
+        tw_calls = lambda n: [x for x in H.walk(n) if x.get("k") == "call" and (x.get("callee") or {}).get("key") == tw_key]
+        loops = [n for n in H.walk(fn.root) if n.get("k") == "for" and tw_calls(n["body"])]
         ok, got = False, None
-        if len(loops) == 1:
+        if len(loops) == 1 and tw_key and pl_key:
             ch = fn.trace(loops[0]["iter"])
             got = ch.show()
-            ok = [h for h in ch.hops if h[0] in ("f", "call")] == [("call", "figure_out_files", []), ("f", "Placement", "file_map")] and \
-                not any(h[0] == "call" and h[1] != "figure_out_files" for h in ch.hops)
+            steps = [(h[0], h[3] if h[0] == "call" and len(h) > 3 else h[1:3]) for h in ch.hops if h[0] in ("f", "call")]
+            ok = steps == [("call", pl_key), ("f", ("Placement", "file_map"))]
             # the child map handed on is the one of the same placement
-            calls = [x for x in H.walk(loops[0]["body"]) if x.get("k") == "call" and H.callee_name(x) == "write_one_tree_starting_at"]
+            calls = tw_calls(loops[0]["body"])
             if len(calls) == 1:
                 c2 = fn.trace(calls[0]["args"][1])
                 n2 = fn.trace(calls[0]["args"][0])
                 ok = ok and [h for h in c2.hops if h[0] == "f"] == [("f", "Placement", "child_map")] and c2.root == ch.root and \
-                    n2.hops[-2:] == [("elem",), ("idx", 1)]
+                    [h[3] for h in c2.hops if h[0] == "call" and len(h) > 3] == [pl_key] and n2.sig()[-2:] == [("elem",), ("idx", 1)] and \
+                    n2.sig()[:len(ch.sig())] == ch.sig()
             else:
                 ok = False
         R.inst("R12.2", "walk:%s" % name, ok, sp=b["sp"], expect="for (file_name, node) in figure_out_files(mappings)?.file_map { .. write_one_tree_starting_at(node, &f.child_map, ..) }", got=got)
     # ---- write_one_tree_starting_at: pre-order, children in list order, one level deeper
-    wt = q.fn("write_one_tree_starting_at", within=EF)
-    if R.anchor("R12.2", "fn write_one_tree_starting_at", wt):
+    wt = cx.roles.get("tree_walk")
+    if R.anchor("R12.2", "tree walk (the writing function called for every file_map entry)", wt):
         fn = U.Fn(q, wt)
         ops = []
         for n in H.walk(fn.root):
@@ -586,8 +662,8 @@ def r12_2(q, R, cx, spec):
                  and H.local_of(n["es"][0]) and H.local_of(n["es"][0])[0] == H.param_ids(wt)[0]]
         R.inst("R12.2", "nesting:root-depth-0", len(inits) == 1, sp=wt["sp"], expect="queue starts with (node, 0)")
     # ---- enigma_dir::read_
-    rd = q.fn("read_", within="quill::enigma_dir::")
-    if R.anchor("R12.2", "fn enigma_dir::read_", rd):
+    rd = dir_read_worker(q)
+    if R.anchor("R12.2", "directory reader (enigma_dir::read or the function it delegates to) with the WalkDir", rd):
         chain = []
         for n in H.walk(rd["body"]):
             if n.get("k") == "mcall" and n["name"] == "into_iter":
@@ -616,6 +692,42 @@ def mentions_param(fn, expr, idx, depth=0):
             if b.origin[0] in ("let", "letexpr") and "init" in b.origin[1] and mentions_param(fn, b.origin[1]["init"], idx, depth + 1):
                 return True
     return False
+
+
+def nested_truth(fn, cond, pol, nest_params, fn_key, depth=0):
+    """Truth value of "the class is written inside its parent" implied by `cond == pol`, or None if the condition does not speak
+    about the nesting parameter.  Understands `!`, bool locals (their initialiser), helper parameters (the argument) and
+    comparisons of the nesting depth with 0 / 1."""
+    if depth > 8:
+        return None
+    e, neg = H.negate_peel(cond)
+    val = (pol != neg)
+    e = H.peel(e)
+    if e.get("k") == "path" and e["res"].get("r") == "local":
+        b = fn.binds.get(e["res"]["id"])
+        if b is None:
+            return None
+        if b.origin[0] in ("let",) and "init" in b.origin[1] and not b.path:
+            return nested_truth(fn, b.origin[1]["init"], val, nest_params, fn_key, depth + 1)
+        if b.origin[0] == "param" and b.origin[1] in fn.subst and not b.path:
+            cf, arg = fn.subst[b.origin[1]]
+            return nested_truth(cf, arg, val, nest_params, fn_key, depth + 1)
+        return None
+    if e.get("k") == "bin" and e["op"] in (">", "<", ">=", "<=", "==", "!="):
+        def is_depth(x):
+            c = fn.trace(x)
+            return c.root[0] == "param" and c.root[1] in nest_params and c.root[4] == fn_key and not c.hops
+        l, r, op = e["l"], e["r"], e["op"]
+        if is_depth(r) and not is_depth(l):
+            l, r = r, l
+            op = {">": "<", "<": ">", ">=": "<=", "<=": ">=", "==": "==", "!=": "!="}[op]
+        k = H.const_value(r)
+        if not is_depth(l) or not isinstance(k, int) or isinstance(k, bool):
+            return None
+        table = {(">", 0): True, ("!=", 0): True, (">=", 1): True, ("==", 0): False, ("<", 1): False, ("<=", 0): False}
+        t = table.get((op, k))
+        return None if t is None else (t == val)
+    return None
 
 
 def after_fields(ch):
@@ -656,52 +768,62 @@ def r12_3(q, R, cx, spec):
     wfn, pfn = cx.wfn, cx.pfn
     wr = cx.wrows.get("CLASS")
     full = [v for v in (wr["variants"] if wr else []) if len(v["cols"]) == 2]
-    if R.anchor("R12.3", "CLASS row with source and target column in write_class", len(full) == 1, sp=cx.wc["sp"]):
-        src, dst = full[0]["cols"]
-        R.inst("R12.3", "strip:src", strip_shape(src["chain"], []), sp=cx.wc["sp"], expect="class_key.get_inner_class_name().unwrap_or(class_key)", got=src["chain"].show())
-        dch = dst["chain"]
-        base = [h for h in dch.hops[:next((i for i, h in enumerate(dch.hops) if h[0] == "call"), len(dch.hops))]]
-        ok = dst["role"] == "ClassMapping.names[1]" and strip_shape(dch, U.Chain(dch.root, base).sig())
-        R.inst("R12.3", "strip:dst", ok, sp=cx.wc["sp"], expect="dst.get_inner_class_name().unwrap_or(dst) of ClassMapping.names[1]", got=dch.show())
-        # stripping only when the class is written under its parent
+    if R.anchor("R12.3", "CLASS row with source and target column in the class writer", len(full) == 1, sp=cx.wc["sp"]):
         nest_params = [i for i, t in enumerate(cx.wc["inputs"]) if not any(x in t for x in ("ObjClassNameSlice", "ClassNowodeMapping", "impl Write", "Write"))]
-        for which, col in (("src", src), ("dst", dst)):
-            calls = [n for n in H.walk(wfn.root) if n.get("k") == "mcall" and n["name"] == "get_inner_class_name"
-                     and wfn.trace(n["recv"]).sig() == [h for h in U.Chain(col["chain"].root, [x for x in col["chain"].hops if x[0] != "call"]).sig()
-                                                         if True][:len(wfn.trace(n["recv"]).sig())]
-                     and wfn.trace(n["recv"]).root == col["chain"].root]
-            ok = False
-            got = "unconditional"
-            for n in calls[:1]:
-                for a in wfn.parents(n):
-                    e = a.get("cond") if a.get("k") == "if" else a.get("scrut") if a.get("k") == "match" else None
-                    if e is not None and any(mentions_param(wfn, e, i) for i in nest_params):
-                        ok = True
-                        got = "under " + H.render(e)[:60]
-                    if a.get("k") == "mcall" and a["name"] in ("filter", "then", "then_some") and any(mentions_param(wfn, x, i) for x in a["args"] for i in nest_params):
-                        ok = True
-                        got = "under " + H.render(a)[:60]
-            R.inst("R12.3", "strip-only-when-nested:%s" % which, ok and len(calls) == 1, sp=(calls[0].get("sp") if calls else cx.wc["sp"]),
-                   expect="the `$` prefix is removed only if the class is written inside its parent (condition on the nesting information: %s)"
-                          % [cx.wc["params"][i].get("name") or i for i in nest_params], got=got,
+        for which, col in (("src", full[0]["cols"][0]), ("dst", full[0]["cols"][1])):
+            hole = col["hole"]
+            alts = U.alternatives(hole[2], hole[1])
+            shapes = []
+            for conds, ch in alts:
+                first_call = next((i for i, h in enumerate(ch.hops) if h[0] == "call"), len(ch.hops))
+                base = U.Chain(ch.root, ch.hops[:first_call])
+                if which == "src":
+                    base_ok = base.root[0] == "param" and base.root[1] == 0 and base.root[4] == cx.wc["key"] and not base.hops
+                else:
+                    r = U.role_of(base, q, cx.key_eq)
+                    base_ok = r is not None and r[0] == ("ClassMapping", "names", 1) and [h for h in r[1] if h != ("some",)] == []
+                calls = [h for h in ch.hops if h[0] == "call"]
+                if not calls:
+                    kind = "full"
+                elif strip_shape(ch, base.sig()):
+                    kind = "inner"
+                else:
+                    kind = "other:" + ch.show()
+                nest = set()
+                for ce, pol, cfn in conds:
+                    v = nested_truth(cfn, ce, pol, nest_params, cx.wc["key"])
+                    if v is not None:
+                        nest.add(v)
+                shapes.append((kind, base_ok, tuple(sorted(nest))))
+            kinds = set(k for k, _, _ in shapes)
+            ok_shape = kinds <= {"full", "inner"} and "inner" in kinds and all(b for _, b, _ in shapes)
+            R.inst("R12.3", "strip:%s" % which, ok_shape, sp=cx.wc["sp"],
+                   expect="the printed name is X.get_inner_class_name().unwrap_or(X) (or X itself), X = %s" % ("the class key" if which == "src" else "ClassMapping.names[1]"),
+                   got=[(k, n) for k, _, n in shapes])
+            ok_nest = ok_shape and kinds == {"full", "inner"} and all((k == "inner" and n == (True,)) or (k == "full" and n == (False,)) for k, _, n in shapes)
+            R.inst("R12.3", "strip-only-when-nested:%s" % which, ok_nest, sp=cx.wc["sp"],
+                   expect="inner name exactly when the class is written inside its parent (nesting information: parameter %s), full name at the top of a file"
+                          % [cx.wc["params"][i].get("name") or i for i in nest_params], got=[(k, n) for k, _, n in shapes],
                    detail="the reader re-attaches a prefix only for nested CLASS rows; a class at the top of a file (outer class not in "
                           "the mapping set) must keep its full name")
     # ---- re-attachment on read (nested case: `if let Some(..) = parent` taken)
     rr = cx.rrows.get("CLASS")
     m = rr["match"] if rr else None
-    ifs = [x for x in cx.RD.walk_row(pfn, pfn.root) if x.get("k") == "if" and H.peel(x["cond"], refs=False).get("k") == "letexpr"
-           and x.get("ty") not in ("()", None)]
     par_ids = [i for i, t in enumerate(cx.pc["inputs"]) if t.startswith("core::option::Option<(")]
-    if R.anchor("R12.3", "`if let Some((parent_src, parent_dst)) = parent` in parse_class", m is not None and len(ifs) == 1 and len(par_ids) == 1, sp=cx.pc["sp"]):
+    branches = []
+    if len(par_ids) == 1:
+        for x, sel_some, sel_none, scrut in U.option_value_branches(pfn, [y for y in cx.RD.walk_row(pfn, pfn.root) if y is not m]):
+            c = pfn.trace(scrut)
+            if c.root[0] == "param" and c.root[1] == par_ids[0] and not c.hops:
+                branches.append((x, sel_some, sel_none))
+    if R.anchor("R12.3", "two-way branch on the `parent` parameter (if let / match) in the class parser", m is not None and len(branches) == 1, sp=cx.pc["sp"]):
         pidx = par_ids[0]
-        cond = H.peel(ifs[0]["cond"], refs=False)
-        cch = pfn.trace(cond["init"])
-        R.inst("R12.3", "reattach:condition", cch.root[0] == "param" and cch.root[1] == pidx and not cch.hops and H.pat_variant(cond["pat"])[1] == "Some",
-               sp=ifs[0].get("sp"), expect="prefix added iff parent is Some", got=cch.show())
+        br, sel_some, sel_none = branches[0]
+        R.inst("R12.3", "reattach:condition", True, sp=br.get("sp"), expect="prefix added iff parent is Some", nontrivial=False)
         lits = [s2 for s2 in cx.RD.struct_lits(pfn, pfn.root, ("ClassMapping",)) if not any(s2 is x for l in cx.levels for x in H.walk(l.closure))]
         arm2 = [a for a in rr["arms"] if a["arity"] == 2 and not a["guarded"]]
         if R.anchor("R12.3", "ClassMapping literal and the [src, dst] arm of parse_class", len(lits) == 1 and len(arm2) == 1, sp=cx.pc["sp"]):
-            f2 = pfn.with_sel({id(m): arm2[0]["index"], id(ifs[0]): True})
+            f2 = pfn.with_sel({**{id(m): arm2[0]["index"]}, **sel_some})
             names = [f for f in lits[0]["fields"] if f["name"] == "names"][0]
             ach = f2.trace(names["e"])
             els = ach.root[1]["es"] if ach.root[0] == "array" else []
@@ -723,7 +845,7 @@ def r12_3(q, R, cx, spec):
             # arity 1: no target name -> None also in the nested case
             arm1 = [a for a in rr["arms"] if a["arity"] == 1 and not a["guarded"]]
             if arm1:
-                f1 = pfn.with_sel({id(m): arm1[0]["index"], id(ifs[0]): True})
+                f1 = pfn.with_sel({**{id(m): arm1[0]["index"]}, **sel_some})
                 els1 = f1.trace(names["e"]).root[1]["es"] if f1.trace(names["e"]).root[0] == "array" else []
                 ok = len(els1) == 2 and col_index(f1.trace(els1[1])) == ("none",)
                 R.inst("R12.3", "reattach:no-dst-stays-none", ok, sp=names["e"].get("sp"), expect="CLASS src  ->  names[1] = None")
@@ -780,10 +902,11 @@ def r12_3(q, R, cx, spec):
             okw = len(calls) == 1 and calls[0][1] == "split" and calls[0][2] and calls[0][2][0].root == ("lit", nl) and col["rest"][-1:] == [("elem",)] \
                 and [h for h in col["rest"] if h[0] == "f"] == [("f", "JavadocMapping", "0")]
         R.inst("R12.3", "comment-split:%s" % key, okw, sp=sp, expect="one COMMENT row per element of javadoc.0.split(%r)" % nl, got=got)
-    ic = q.fn("insert_comment", within=EF)
     anyc = [r for r in cx.rrows.values() if r.get("comment")]
-    if R.anchor("R12.3", "fn insert_comment", ic) and R.anchor("R12.3", "COMMENT rows handled by insert_comment", bool(anyc), sp=cx.pc["sp"]):
-        same_helper = all(r["comment"]["callee"].body["key"] == ic["key"] for r in anyc)
+    hk = set(r["comment"]["callee"].body["key"] for r in anyc)
+    ic = q.by_key.get(list(hk)[0]) if len(hk) == 1 else None
+    if R.anchor("R12.3", "the one comment helper all COMMENT rows hand their line to", ic, sp=cx.pc["sp"]):
+        same_helper = True
         c = anyc[0]["comment"]
         first = c["first"]
         jn = [h for h in after_fields(first) if h[0] == "call"] if first else []
@@ -859,8 +982,8 @@ def r12_4(q, R, cx, spec):
                     "none) - exactly one of the two; a node carries key and value of the same map entry; two classes with the same file "
                     "name are an error, not an overwrite; children are looked up under the written class's own key; the directory writer "
                     "and reader use the same file extension")
-    fo = q.fn("figure_out_files", within=EF)
-    if not (cx.ok and R.anchor("R12.4", "fn figure_out_files", fo)):
+    fo = cx.roles.get("placement") if cx.ok else None
+    if not (cx.ok and R.anchor("R12.4", "placement function (its file_map is walked by write_all)", fo)):
         R.floor("R12.4", 9)
         return
     fn = getattr(cx, "ffn", None) or U.Fn(q, fo)
@@ -874,40 +997,63 @@ def r12_4(q, R, cx, spec):
     elem = fn.trace(loop["iter"]).plus(("mapiter", "kv"), ("elem",)) if not any(h[0] == "mapiter" for h in fn.trace(loop["iter"]).hops) \
         else fn.trace(loop["iter"]).plus(("elem",))
     key_sig, val_sig = elem.plus(("idx", 0)).sig(), elem.plus(("idx", 1)).sig()
-    # nodes
+    # nodes: every Node literal of the loop pairs the key and the value of the current entry; what is pushed / inserted is such a node
     nodes = [n for n in H.walk(loop["body"]) if n.get("k") == "struct" and U.short(n.get("adt")) == "Node"]
-    okn = len(nodes) >= 2
+    okn = len(nodes) >= 1
     for n in nodes:
         fs = {f["name"]: fn.trace(f["e"]).sig() for f in n["fields"]}
         okn = okn and fs.get("src") == key_sig and fs.get("class") == val_sig
-    R.inst("R12.4", "node:key-and-value-of-same-entry", okn, sp=loop.get("sp"), expect="Node { src, class } from the (key, value) pair of the loop", got=len(nodes))
     # child placement
     pushes = [n for n in H.walk(loop["body"]) if n.get("k") == "mcall" and n["name"] == "push" and H.recv_root(n["recv"]) and H.recv_root(n["recv"])[0] == cm]
     inserts = [n for n in H.walk(loop["body"]) if n.get("k") == "mcall" and n["name"] in ("insert", "insert_full", "entry") and H.local_of(n["recv"]) and H.local_of(n["recv"])[0] == fm]
     if R.anchor("R12.4", "one child_map push and one file_map insert in the loop", len(pushes) == 1 and len(inserts) == 1, sp=loop.get("sp")):
         push, ins = pushes[0], inserts[0]
+        stored = [fn.trace(push["args"][0]), fn.trace(ins["args"][-1])]
+        okn = okn and all(c.root[0] == "struct" and any(c.root[1] is n for n in nodes) and not c.hops for c in stored)
+        R.inst("R12.4", "node:key-and-value-of-same-entry", okn, sp=loop.get("sp"), expect="Node { src, class } from the (key, value) pair of the loop, stored as it is",
+               got=[c.show() for c in stored])
         conds = H.path_conditions(loop["body"], push)
+        loop_map = fn.trace(loop["iter"])
+
+        def norm(sig):
+            return [h for h in sig if h[:2] != ("call", "filter")]
+        parent_sig = norm(key_sig + [("call", "get_inner_class_parent"), ("some",)])
+
+        def parent_like(e):
+            sg = norm([h[:2] if h[0] == "call" else h for h in fn.trace(e).sig()])
+            return sg == parent_sig
+
+        def is_contains(e):
+            e = H.peel(e, refs=False)
+            if e.get("k") == "block" and not e["stmts"] and "tail" in e:
+                e = H.peel(e["tail"], refs=False)
+            if e.get("k") != "mcall" or e["name"] != "contains_key" or len(e["args"]) != 1:
+                return False
+            rc = fn.trace(e["recv"])
+            return rc.sig() == loop_map.sig() and rc.root == loop_map.root and parent_like(e["args"][0])
         parent_bind, has_parent, in_set = None, False, False
         for kind, cn, pol in conds:
             if kind == "iflet" and pol is True:
                 c = fn.trace(cn["init"])
-                if c.sig()[:len(key_sig)] == key_sig and [h[1] for h in c.hops if h[0] == "call"] == ["get_inner_class_parent"]:
+                names = [h[1] for h in c.hops if h[0] == "call"]
+                if c.sig()[:len(key_sig)] == key_sig and names in (["get_inner_class_parent"], ["get_inner_class_parent", "filter"]) \
+                        and H.pat_variant(cn["pat"]) and H.pat_variant(cn["pat"])[1] == "Some":
                     has_parent = True
                     b = H.pat_bindings(cn["pat"])
                     parent_bind = b[0][0] if len(b) == 1 else None
-            if kind == "if" and pol is True:
-                c = H.peel(cn, refs=False)
-                if c.get("k") == "mcall" and c["name"] == "contains_key":
-                    rc = fn.trace(c["recv"])
-                    al = H.local_of(c["args"][0])
-                    in_set = rc.sig() == fn.trace(loop["iter"]).sig() and rc.root == fn.trace(loop["iter"]).root and al is not None and al[0] == parent_bind
+                    for h in c.hops:
+                        if h[:2] == ("call", "filter") and isinstance(h[2], dict) and h[2].get("k") == "closure" and is_contains(h[2]["body"]):
+                            in_set = True
+            if kind == "if" and pol is True and is_contains(cn):
+                in_set = True
         ent = [x for x in H.walk(push["recv"]) if x.get("k") == "mcall" and x["name"] in ("entry", "get_mut", "get")]
         keyed = len(ent) == 1 and H.local_of(ent[0]["args"][0]) is not None and H.local_of(ent[0]["args"][0])[0] == parent_bind
         R.inst("R12.4", "child:only-if-parent-in-set", has_parent and in_set, sp=push.get("sp"),
-               expect="if let Some(parent) = src.get_inner_class_parent() { if mappings.classes.contains_key(parent) { .. } }",
+               expect="the class is listed as a child only if src.get_inner_class_parent() is Some(parent) and mappings.classes.contains_key(parent)",
                got=[(k, H.render(c)[:60], p) for k, c, p in conds])
         R.inst("R12.4", "child:listed-under-parent-key", keyed, sp=push.get("sp"), expect="child_map.entry(parent)...push(node)")
-        # exactly one of the two: the push is followed by `continue`, the insert is unconditional afterwards
+        # exactly one of the two: the insert happens exactly when the push does not (the push branch leaves the iteration, or the
+        # insert sits in the complementary branches of the same conditions)
         blk = None
         for a in fn.parents(push):
             if a.get("k") == "block":
@@ -925,10 +1071,12 @@ def r12_4(q, R, cx, spec):
                     cont = H.peel(st).get("k") == "continue"
                     break
         ic = H.path_conditions(loop["body"], ins)
-        order = list(H.walk(loop["body"]))
-        after = [id(x) for x in order].index(id(ins)) > [id(x) for x in order].index(id(push))
-        R.inst("R12.4", "exactly-one-place", cont and not ic and after, sp=push.get("sp"),
-               expect="push(child) followed by `continue`; file_map.insert unconditional for every other class",
+        complement = all(any(c2 is cn and p2 is True for k2, c2, p2 in conds) and pol is False for kind, cn, pol in ic)
+        order = [id(x) for x in H.walk(loop["body"])]
+        after = order.index(id(ins)) > order.index(id(push))
+        in_else = bool(ic) and not cont
+        R.inst("R12.4", "exactly-one-place", complement and ((cont and after) or (in_else and len(ic) == len(conds))), sp=push.get("sp"),
+               expect="push(child) followed by `continue` (or the insert in the else branch); file_map.insert for exactly the other classes",
                got={"continue_after_push": cont, "insert_conditions": [(k, H.render(c)[:50], p) for k, c, p in ic]})
         # file name
         kch = fn.trace(ins["args"][0])
@@ -947,8 +1095,8 @@ def r12_4(q, R, cx, spec):
                got="result discarded: the later class silently replaces the earlier one",
                detail="IndexMap::insert overwrites; every class must land in exactly one file")
     # children looked up under the written class's own key
-    wt = q.fn("write_one_tree_starting_at", within=EF)
-    if R.anchor("R12.4", "fn write_one_tree_starting_at", wt):
+    wt = cx.roles.get("tree_walk")
+    if R.anchor("R12.4", "tree walk (the writing function called for every file_map entry)", wt):
         tfn = U.Fn(q, wt)
         gets = [n for n in H.walk(tfn.root) if n.get("k") == "mcall" and n["name"] == "get" and U.is_map_ty(H.peel(n["recv"]).get("tya") or H.peel(n["recv"]).get("ty"))]
         wcalls = [n for n in H.walk(tfn.root) if n.get("k") == "call" and (n.get("callee") or {}).get("key") == cx.wc["key"]]
@@ -964,8 +1112,8 @@ def r12_4(q, R, cx, spec):
             ofn.trace(gets[0]["args"][0]).root[:2] == ("param", 1)
         R.inst("R12.4", "write_one:by-file-name", ok, sp=wo["sp"], expect="f.file_map.get(dst_class_name)")
     # directory: same extension on both sides
-    dw, dr = q.fn("write", within="quill::enigma_dir::write"), q.fn("read_", within="quill::enigma_dir::")
-    if R.anchor("R12.4", "fn enigma_dir::write", dw) and R.anchor("R12.4", "fn enigma_dir::read_", dr):
+    dw, dr = q.fn("write", within="quill::enigma_dir::write"), dir_read_worker(q)
+    if R.anchor("R12.4", "fn enigma_dir::write", dw) and R.anchor("R12.4", "directory reader with the WalkDir", dr):
         wext = [H.const_name(n["args"][0]) for n in H.walk(dw["body"]) if n.get("k") == "mcall" and n["name"] == "set_extension"]
         rext = []
         for n in H.walk(dr["body"]):
@@ -993,14 +1141,30 @@ def r12_4(q, R, cx, spec):
 def r12_5(q, R, cx):
     R.rule("R12.5", "no Result is discarded in the Enigma reader/writer functions; parse_class inserts only through add_* and "
                     "propagates their error (duplicate source keys are rejected, never merged); each node is built from its own row")
-    names = [("read_into", EF + "read_into"), ("parse_class", EF), ("insert_comment", EF), ("write_class", EF), ("figure_out_files", EF),
-             ("write_all", EF + "write_all"), ("write_all_for_each", EF), ("write_one", EF + "write_one"), ("write_one_tree_starting_at", EF),
-             ("read_file_into", EF), ("read", "quill::enigma_dir::read"), ("read_", "quill::enigma_dir::"), ("write", "quill::enigma_dir::write")]
-    for name, within in names:
-        b = q.fn(name, within=within)
-        if R.anchor("R12.5", "fn %s" % (within.split("::")[1] + "::" + name), b):
+    roles = getattr(cx, "roles", None) or resolve_roles(q, U.Writer(q))
+    targets = [("enigma_file::read_into", roles.get("read_into")), ("enigma_file::class-parser", roles.get("parse_class")),
+               ("enigma_file::class-writer", roles.get("write_class")), ("enigma_file::placement", roles.get("placement")),
+               ("enigma_file::write_all", roles.get("write_all")), ("enigma_file::write_all_for_each", roles.get("write_all_for_each")),
+               ("enigma_file::write_one", roles.get("write_one")), ("enigma_file::tree-walk", roles.get("tree_walk")),
+               ("enigma_file::read_file_into", q.fn("read_file_into", within=EF)),
+               ("enigma_dir::read", q.fn("read", within="quill::enigma_dir::read")),
+               ("enigma_dir::write", q.fn("write", within="quill::enigma_dir::write"))]
+    helpers = {}
+    if cx.ok:
+        for rr in cx.rrows.values():
+            if rr.get("comment"):
+                helpers[rr["comment"]["callee"].body["key"]] = rr["comment"]["callee"].body
+    targets.append(("enigma_file::comment-helper", list(helpers.values())[0] if len(helpers) == 1 else None))
+    dr = targets[-3][1]
+    inner = None
+    if dr:
+        ks = set((x.get("callee") or {}).get("key") for x in H.walk(dr["body"]) if x.get("k") == "call") & set(q.by_key)
+        inner = q.by_key[list(ks)[0]] if len(ks) == 1 else None
+    targets.append(("enigma_dir::read-worker", inner))
+    for name, b in targets:
+        if R.anchor("R12.5", "fn %s" % name, b):
             bad = U.discarded_results(U.Fn(q, b))
-            R.inst("R12.5", "no-discarded-result:%s::%s" % (within.split("::")[1], name), not bad, sp=(bad[0].get("sp") if bad else b["sp"]),
+            R.inst("R12.5", "no-discarded-result:%s" % name, not bad, sp=(bad[0].get("sp") if bad else b["sp"]),
                    got=[H.render(x)[:80] for x in bad], expect="every Result is propagated with `?`, returned or matched")
     b = q.fn("new", impl_ty="EnigmaLine")
     if b:
